@@ -56,7 +56,8 @@ ASSUMPTIONS = [
 ]
 MUST_REACH = ["wf_count", "wf_reversal", "compute_weight", "positivity",
               "segment_membership", "selection_law", "cv_vector", "cv_minus",
-              "acc_weight_vector", "acc_reported_extremes"]
+              "acc_weight_vector", "acc_reported_extremes",
+              "loaded_weight_vector"]
 JOB_TIMEOUT = 1500
 SIG_CAP = 4000          # signatures reported per job
 KNOWN_TAG = "wf-weight-doubled-with-undefined-endpoint"
@@ -99,7 +100,7 @@ def plan(tier, seed):
     # a cap below the last interface
     from vf.checks import _schedfam as F
     rjobs = F.plan_jobs(tier, seed, "C10r", quick_jobs=12, thorough_jobs=200,
-                        cases_per_job=4, nmin=3, restarts=False)
+                        cases_per_job=4, nmin=3)
     for job in rjobs:
         for spec in job["specs"]:
             if rng.random() < 0.5:
